@@ -5,8 +5,11 @@ entryaddress.c (`AddEntryAddress`, `GetEntryAddress`), codechunks.c (`MoveCodeCh
 `RetrieveCodeFromChunkList`, `GetCodeChunksStored`), invaddress.c, strutil.c `HexString`.  Core only.
 
 Two chunk-list models are kept side by side: `addChunkC` transcribes chunks.c's array algorithm (swap-with-last
-removal, merge scan from index 1); `ins` is the normalised interval-set insertion the theorems are about.  The trace
-loop carries both and the driver reports whether they describe the same set on every run (`l1=eq`). -/
+removal, merge scan from index 1); `ins` is the normalised interval-set insertion.  The machine runs on the arrays
+(`codeC`/`dataC`: `AddressInChunk` for the entry queue, `SortChunks` before the output) and carries the interval-set lists
+`code`/`data` as ghost state.  `Lemmas/DisChunksRefine.lean` proves that `SortChunks` of the array *is* the interval-set list
+for every insertion history (`C15_chunks_refine`, `C15_run_refine` in `Props/C15.lean`); the driver still reports the
+comparison on every run (`l1=eq`) as a test. -/
 namespace AslModel.Dis
 
 /-! ## loaded image (codechunks.c) -/
@@ -215,8 +218,11 @@ abbrev Disasm := Image → Bool → Syms → Nat → Bool → Int → DisInfo ×
 structure TState where
   queue : List Nat := []
   code : List Chunk := []
+  /-- `UsedCodeChunks`: the array as chunks.c keeps it -/
   codeC : List Chunk := []
   data : List Chunk := []
+  /-- `UsedDataChunks`: the array as chunks.c keeps it -/
+  dataC : List Chunk := []
   syms : Syms := {}
   maxSrc : Nat := 0
   pref : Option Nat := none
@@ -235,11 +241,11 @@ def queueNexts (code : List Chunk) (nexts : List Nat) (q : List Nat) : List Nat 
 def traceStep (dis : Disasm) (img : Image) (lower : Bool) (s : TState) (a : Nat) (q : List Nat) : TState :=
   let r := dis img lower s.syms a false (-1)
   let info := r.1
-  let code := addChunk s.code a info.len
+  let codeC := addChunkC s.codeC a info.len
   { s with
-    queue := queueNexts code info.nexts q
-    code := code
-    codeC := addChunkC s.codeC a info.len
+    queue := queueNexts codeC info.nexts q
+    code := addChunk s.code a info.len
+    codeC := codeC
     syms := r.2.1
     maxSrc := max s.maxSrc (tabbedStrLen info.src)
     pref := some (a + info.len)
@@ -280,6 +286,7 @@ def cmdEntry (img : Image) (lower : Bool) (s : TState) : Entry → Option TState
       some { s with
         err := s.err ++ [line]     -- on stderr since the repair of das.c (it used to be printed into the generated source)
         data := addChunk s.data va len
+        dataC := addChunkC s.dataC va len
         vectors := if len = 0 then s.vectors else (va, len) :: s.vectors
         syms := syms
         queue := addEntry addr s.queue }
@@ -385,7 +392,12 @@ structure Result where
   stdout : String
   stderr : List String
   areas : List (Chunk × Bool)
+  /-- the arrays `UsedCodeChunks` / `UsedDataChunks` before `SortChunks` -/
   codeC : List Chunk
+  dataC : List Chunk
+  /-- ghost: the interval-set lists (`ins`) built from the same insertions -/
+  codeS : List Chunk
+  dataS : List Chunk
   traced : List (Nat × Nat)
   vectors : List (Nat × Nat)
   /-- fuel ran out: the C program would not terminate (a zero-length line inside an area used to be such a case; das.c now
@@ -395,17 +407,17 @@ structure Result where
 /-- whole run: options in command-line order, trace, output -/
 def runDasl (dis : Disasm) (img : Image) (lower : Bool) (entries : List Entry) (fuel : Nat) : Result :=
   match cmdEntries img lower {} entries with
-  | none => ⟨false, "", [], [], [], [], [], false⟩
+  | none => ⟨false, "", [], [], [], [], [], [], [], [], false⟩
   | some s0 =>
     let (s, done) := traceLoop dis img lower fuel s0
     let maxSrc := s.maxSrc + (tabSize - s.maxSrc % tabSize)
     let ml := s.syms.maxLen + 1
     let maxLab := ml + (tabSize - ml % tabSize)
-    let code := sortChunks s.code
-    let data := sortChunks s.data
+    let code := sortChunks s.codeC
+    let data := sortChunks s.dataC
     let areas := iterateChunks (code.length + data.length + 1) code data
     let o := areas.foldl (fun o p => if o.hang then o else disasmIterator dis img lower maxSrc maxLab o p.1 p.2)
       { syms := s.syms, err := s.err, out := s.out, dataSize := -1 }
-    ⟨true, String.join (o.out ++ dumpChunks lower img areas), o.err, areas, s.codeC, s.traced, s.vectors, o.hang || !done⟩
+    ⟨true, String.join (o.out ++ dumpChunks lower img areas), o.err, areas, s.codeC, s.dataC, s.code, s.data, s.traced, s.vectors, o.hang || !done⟩
 
 end AslModel.Dis
